@@ -15,7 +15,7 @@ from .semantics import compare, impl_outputs, iomap_of
 PID = "C10"
 DEVIATIONS = {"printfid-unframed": "-print-file-fid writes its line directly through the runtime, outside any frame, also in framed mode"}
 ACTIONS = ["-print", "-print0", "-fprint A", "-fprint B", "-fprint0 A", "-printf 'x\\n'", "-printf 'x'", "-fprintf A 'y'",
-           "-fprintf B 'y\\n'", "-print-file-fid", "-quit"]
+           "-fprintf B 'y\\n'", "-print-file-fid", "-quit", "-printf 'x\\ny'", "-printf '\\n%p\\n'"]
 
 
 def spec_framed(texts):
@@ -110,7 +110,12 @@ def run(ctx, rep, tier):
                           dict(sexpr=tree[1], finding=f["text"], detail=f.get("detail"), native_iomap=d.get("iomap")))
         if len(samples) < 6:
             samples.append(dict(actions=list(combo), framed=framed_spec, tree=tree[1][:160]))
+    n_mode = mode_predicate(B, rep, 4 if tier == "quick" else 6)
     cov = B.coverage_common()
+    cov["mode_predicate"] = dict(obligations=n_mode, explanation="Expression::complex_frames executed symbolically (MIR) on -printf / -fprintf "
+                                 "actions whose format is a list of 1..N symbolic elements (literal / field / escape, newline escape possible at "
+                                 "every position), alone and under every operator next to an opaque sibling; z3 proves framed <=> the last "
+                                 "element is not the newline escape (stdout) / always (file)")
     cov.update(explanation="action combinations (all singles and pairs of %d output actions, sampled triples and 4..6-tuples) embedded in "
                "and/or/',' trees, compiled by the real code (MIR), program executed on a symbolic file; z3 proves outputs "
                "(destination, bytes, terminator decoded through the frame tag and io_map) equal to the specification for all files; "
@@ -119,6 +124,44 @@ def run(ctx, rep, tier):
                outside="300 distinct destinations (not explored); other file names")
     rep.coverage = cov
     rep.assumptions = ["runtime contract of DESIGN.md 2.3; the parent process adds the terminator recorded in io_map to framed records"]
+
+
+def mode_predicate(B, rep, nmax):
+    """mode predicate over symbolic formats: framed <=> last element is not the newline escape, at every length 1..nmax
+    (the empty format prints nothing and is not constrained)"""
+    from . import c19
+    n_ob = 0
+    sib = c19.OpaqueExp("sib")
+    for v in ("PrintFormatted", "FilePrintFormatted"):
+        for n in range(1, nmax + 1):
+            elems, ass, lastk = [], [], None
+            for i in range(n):
+                e, k, asm = c19.fmt_elem_union("m%s%d_%d" % (v[:2], n, i))
+                elems.append(e)
+                ass += asm
+                lastk = k
+            fmt = VecV(elems)
+            leaf = Adt("Expression", "Action", [Adt("Action", v, [fmt] if v == "PrintFormatted" else [c19.opaque_str("file"), fmt])])
+            spec = True if v == "FilePrintFormatted" else (lastk != 3)
+            shapes = [("alone", leaf, spec)]
+            if n <= 2:
+                shapes += [("and-right", c19.op("And", sib, leaf), z3.Or(sib.cf, spec)), ("or-left", c19.op("Or", leaf, sib), z3.Or(sib.cf, spec)),
+                           ("not", c19.op("Not", leaf), spec)]
+            for shape, tree, sp in shapes:
+                val, panic = c19.helper_run(B, "Expression::complex_frames", tree, ass)
+                bad = b_or(panic, z3.Xor(c19.zb(val), c19.zb(sp)))
+                res, m = B.solve("mode-predicate:%s[%d]:%s" % (v, n, shape), ass, bad)
+                n_ob += 1
+                if res == z3.sat:
+                    sx = c19.sexpr_of(tree, m)
+                    want = eval_guard(m, c19.zb(sp))
+                    d = B.ctx.run_native_trees([sx])[0] if sx else {}
+                    if sx and d.get("complex") == str(want).lower():
+                        rep.inconclusive.append("mode-predicate counterexample %s does not reproduce natively" % sx)
+                        continue
+                    rep.violation("routing:mode-predicate", "%s: the mode predicate says %s, the rule says %s" % (sx, d.get("complex"), str(want).lower()),
+                                  dict(sexpr=sx, finding="mode predicate", native_iomap=d.get("iomap")))
+    return n_ob
 
 
 def replay(ctx, path):
